@@ -38,16 +38,6 @@ theorem fin_tet : ∀ a1 b1 c1 : Fin 4, (t4ok (a1, b1, c1) && t4nd (t4prs (0, 1,
 
 /-! ### the same over vertex handles -/
 
-theorem nodup_of_map' {α β} (f : α → β) : ∀ l : List α, (l.map f).Nodup → l.Nodup := by
-  intro l
-  induction l with
-  | nil => intro _; exact List.nodup_nil
-  | cons a t ih =>
-    intro h
-    simp only [List.map_cons, List.nodup_cons, List.mem_map, not_exists, not_and] at h
-    exact List.nodup_cons.mpr ⟨fun hm => h.1 a hm rfl, ih h.2⟩
-
-def prsN (u v w : Nat) : List (Nat × Nat) := [(u, v), (v, w), (w, u)]
 
 theorem t4rot_sound (D : Fin 4 → Nat) (i j l a b c : Fin 4) (h : t4rot (i, j, l) (a, b, c) = true) :
     Rot [D i, D j, D l] [D a, D b, D c] := by
@@ -162,21 +152,6 @@ theorem tet_classify {p q r s u1 v1 w1 u2 v2 w2 u3 v3 w3 : Nat} (hd : [p, q, r, 
 
 /-! ### the kernel level -/
 
-theorem nodup_map_on' {α β} (f : α → β) : ∀ l : List α, (∀ x ∈ l, ∀ y ∈ l, f x = f y → x = y) → l.Nodup → (l.map f).Nodup := by
-  intro l
-  induction l with
-  | nil => intro _ _; exact List.nodup_nil
-  | cons a t ih =>
-    intro hinj hn
-    have hn' := List.nodup_cons.mp hn
-    simp only [List.map_cons]
-    refine List.nodup_cons.mpr ⟨?_, ih (fun x hx y hy => hinj x (List.mem_cons_of_mem _ hx) y (List.mem_cons_of_mem _ hy)) hn'.2⟩
-    intro hm
-    obtain ⟨y, hy, e⟩ := List.mem_map.mp hm
-    have := hinj y (List.mem_cons_of_mem _ hy) a (by simp) e
-    subst this
-    exact hn'.1 hy
-
 /-- no two different halfedges of the halffaces run between the same ordered pair of vertices (no duplicate edge and
     no edge from a vertex to itself inside the cell) -/
 def NoParallel (k : Kernel) (hfs : List Nat) : Prop :=
@@ -184,9 +159,18 @@ def NoParallel (k : Kernel) (hfs : List Nat) : Prop :=
 
 instance (k : Kernel) (hfs : List Nat) : Decidable (NoParallel k hfs) := by unfold NoParallel; infer_instance
 
+/-- the guard 4614b67 of the tet `add_cell(halffaces)` (`Kernel.noParallel`: the ordered end point pairs of the halfedges
+    are pairwise different, as a list) gives `NoParallel` and that the halfedges themselves are pairwise different -/
+theorem noParallel_spec {k : Kernel} {hfs : List Nat} (h : k.noParallel hfs = true) :
+    NoParallel k hfs ∧ (k.cellHalfedges hfs).Nodup := by
+  unfold noParallel at h
+  rw [decide_eq_true_eq] at h
+  refine ⟨fun x hx y hy e1 e2 => ?_, nodup_of_map' _ _ h⟩
+  exact nodup_map_inj (fun h => (k.fromV h, k.toV h)) _ h x hx y hy (Prod.ext e1 e2)
+
 /-- what an accepted `add_cell(halffaces)` of the tet kernel has checked (64c6d58) -/
 theorem tetAddCell_accepted {k : Kernel} {hfs : List Nat} {chk : Bool} {c : Nat} (h : (k.tetAddCell hfs chk).2 = some c) :
-    c = k.nC ∧ hfs.length = 4 ∧ k.spanVertCount hfs = 4 ∧ k.addCellAccepts hfs chk = true ∧
+    c = k.nC ∧ hfs.length = 4 ∧ (k.spanVertCount hfs = 4 ∧ k.noParallel hfs = true) ∧ k.addCellAccepts hfs chk = true ∧
     (k.tetAddCell hfs chk).1 = k.addCellCore hfs := by
   unfold tetAddCell at h ⊢
   split at h
@@ -229,31 +213,20 @@ theorem tetAddCell_fourVerts {k : Kernel} {hfs : List Nat} {chk : Bool} {c : Nat
   rw [hca]
   have hv : hfs.flatMap (k.addCellCore hfs).hfVerts = hfs.flatMap k.hfVerts :=
     k4_flatMap_congr (fun x _ => hfVerts_of_eq (by simp) (by simp) x)
-  rw [hv, ← hs]
+  rw [hv, ← hs.1]
   unfold spanVertCount
   apply List.Perm.length_eq
   apply (List.perm_ext_iff_of_nodup (toSet_nodup _) (toSet_nodup _)).mpr
   intro x
   rw [mem_toSet, mem_toSet, mem_span_iff hl]
 
-theorem loop3_elim {k : Kernel} {l : List Nat} (h : Loop3 k l) :
-    ∃ x y z, l = [x, y, z] ∧ k.toV x = k.fromV y ∧ k.toV y = k.fromV z ∧ k.toV z = k.fromV x := by
-  unfold Loop3 at h
-  split at h
-  · rename_i x y z; exact ⟨x, y, z, rfl, h⟩
-  · exact absurd h id
-
-theorem pairs_of_loop {k : Kernel} {x y z : Nat} (l1 : k.toV x = k.fromV y) (l2 : k.toV y = k.fromV z)
-    (l3 : k.toV z = k.fromV x) :
-    [x, y, z].map (fun h => (k.fromV h, k.toV h)) = prsN (k.fromV x) (k.fromV y) (k.fromV z) := by
-  simp only [List.map_cons, List.map_nil, prsN, l1, l2, l3]
-
-/-- **with topology check, closed loops and no parallel halfedges, an accepted `add_cell(halffaces)` of the tet kernel
-    stores a tetrahedron**: four triangles spanning four vertices whose twelve halfedges are pairwise different and
-    matched by their opposites are the boundary of a tetrahedron -/
+/-- **with topology check and closed loops, an accepted `add_cell(halffaces)` of the tet kernel stores a tetrahedron**
+    (64c6d58 + 4614b67): four triangles spanning four vertices whose twelve halfedges run through twelve different
+    ordered vertex pairs and are matched by their opposites are the boundary of a tetrahedron -/
 theorem tetAddCell_checked_isTet {k : Kernel} {hfs : List Nat} {c : Nat} (h : (k.tetAddCell hfs true).2 = some c)
-    (hl : ∀ hf ∈ hfs, Loop3 k (k.hfHes hf)) (hnp : NoParallel k hfs) : IsTet (k.tetAddCell hfs true).1 c := by
-  obtain ⟨rfl, h4, hs, hacc, e⟩ := tetAddCell_accepted h
+    (hl : ∀ hf ∈ hfs, Loop3 k (k.hfHes hf)) : IsTet (k.tetAddCell hfs true).1 c := by
+  obtain ⟨rfl, h4, ⟨hs, hpar⟩, hacc, e⟩ := tetAddCell_accepted h
+  have hnp := (noParallel_spec hpar).1
   rw [e]
   have hcs : ClosedSurface k hfs := by
     apply (cellCheck_iff k hfs).mp
